@@ -6,5 +6,6 @@ export GOFLAGS=-mod=mod GOPROXY=off GOSUMDB=off GOTOOLCHAIN=local
 unset GOWORK
 mkdir -p "$HERE/bin" "$HERE/evidence"
 cd "$HERE/checker"
-go build -o "$HERE/bin/gkvcheck" .
+# build aside and rename: checks running in parallel never see a half-written binary
+go build -o "$HERE/bin/gkvcheck.$$" . && mv -f "$HERE/bin/gkvcheck.$$" "$HERE/bin/gkvcheck"
 echo "built $HERE/bin/gkvcheck"
